@@ -412,6 +412,9 @@ pub fn c18(tier: &str, seed: u64) {
         let aux = match g.below(4) {
           0 => None,
           1 => Some(vec![]),
+          // now and then long associated data (payloads beyond one and two cipher blocks), different
+          // for every client of the group
+          _ if !huge && gi % 3 == 1 => Some({ let n = *g.pick(&[120usize, 127, 160, 200, 340, 400]); g.bytes(n) }),
           _ => Some({ let n = g.range(1, 24) as usize; g.blob(n) }),
         };
         clients.push((m.clone(), aux));
